@@ -113,12 +113,14 @@ def no_fixed_point_default(check: Check, repo: Repo) -> bool:
     return ok
 
 
-def run_entry(check: Check, repo: Repo, entry: str, allowed: set[str], rule: str, *, extra_roots: list[str] | None = None, discharged_funcs: set[str] | None = None, exempt_funcs: dict[str, str] | None = None) -> tuple[int, int]:
+def run_entry(check: Check, repo: Repo, entry: str, allowed: set[str], rule: str, *, extra_roots: list[str] | None = None, discharged_funcs: set[str] | None = None, exempt_funcs: dict[str, str] | None = None, recursion: bool = False, roots_at: str | None = None) -> tuple[int, int]:
     """Report every (exception, site) that can escape ``entry`` and is neither allowed,
     discharged by a machine-checked rule, nor triaged SAFE."""
     esc = escape_engine(repo)
-    sites, reach = esc.escapes(entry, extra_roots)
+    sites, reach = esc.escapes(entry, extra_roots, recursion=recursion, roots_at=roots_at)
     check.count("reachable_functions", len(reach))
+    if recursion:
+        check.count("functions_on_call_cycles", len(esc.recursive_funcs))
     n_sites = 0
     for k in reach:
         n_sites += len(esc.funcs[k].sites)
